@@ -40,11 +40,14 @@ def universes(rng):
     u["option(sum)"] = [NONE] + [dict(t="some", v=x) for x in INTS[:4]]
     u["option(string)"] = u["sg.option(string)"] = [NONE] + [dict(t="some", v=x) for x in STRS[:4]]
     u["try(string)"] = [dict(t="some", v=x) for x in STRS[:4]] + [dict(t="wrap", v=I(1)), dict(t="wrap", v=I(2))]
-    seqs = [seq([], True), seq([]), seq([I(1)]), seq([I(2)]), seq([I(1), I(2)]), seq([I(2), I(1)])]
+    seqs = [seq([], True), seq([]), seq([I(1)]), seq([I(2)]), seq([I(1), I(2)]), seq([I(2), I(1)]), dict(t="seq", xs=[I(1), I(2)], nil=False, cap=3),
+            dict(t="seq", xs=[], nil=False, cap=2)]
     u["mergeseq"] = u["mergeslice"] = seqs
     maps = [mp({}), mp({1: I(1)}), mp({1: I(2)}), mp({2: I(5)}), mp({1: I(0), 2: I(1)}), mp({3: I(3)})]
     u["mergegomap"] = maps + [mp({}, True)]
     u["mergemap"] = maps
+    big = {k: I(k % 4) for k in range(1, 11)}
+    u["mergemap#collide"] = [mp({}), mp(big), mp({4: I(9), 7: I(8)}), mp({1: I(5)}), mp({k: I(1) for k in (2, 5, 8, 11)}), mp({10: I(3), 13: I(1)})]
     u["mergeset"] = [mp({}), mp({1: I(1)}), mp({2: I(1)}), mp({1: I(1), 2: I(1)}), mp({3: I(1)})]
     u["ptr(sum)"] = u["sg.ptr(sum)"] = [NILP, ptr(I(0), 1), ptr(I(1), 2), ptr(I(2), 3), ptr(I(1), 4)]
     u["ptr(string)"] = [NILP, ptr(S(""), 1), ptr(S("a"), 2), ptr(S("b"), 3)]
